@@ -322,6 +322,94 @@ func peepGenSynth(r *hx.Rng, nConst, nType int) string {
 	return strings.Join(toks, " ")
 }
 
+// peepIdx: indices into the table program's constant and type tables that make a window rewritten
+// or declined.
+type peepIdx struct {
+	constInt                                    int // a constant of kind Int
+	typeInt, typeOther, typePublic, typeStorage int // types: kind Int; neither Int nor a path; PublicPath; StoragePath
+}
+
+func peepFindIdx(tbl *peepTable) (ix peepIdx, ok bool) {
+	ix = peepIdx{-1, -1, -1, -1, -1}
+	for i, c := range tbl.prog.Constants {
+		if c.Kind == constant.Int && ix.constInt < 0 {
+			ix.constInt = i
+		}
+	}
+	for i, ty := range tbl.prog.Types {
+		k, p := peepKindOfType(ty), peepPathOfType(ty)
+		switch {
+		case k == constant.Int && ix.typeInt < 0:
+			ix.typeInt = i
+		case p == "public" && ix.typePublic < 0:
+			ix.typePublic = i
+		case p == "storage" && ix.typeStorage < 0:
+			ix.typeStorage = i
+		case k == constant.Unknown && p == "" && ix.typeOther < 0:
+			ix.typeOther = i
+		}
+	}
+	ok = ix.constInt >= 0 && ix.typeInt >= 0 && ix.typeOther >= 0 && ix.typePublic >= 0 && ix.typeStorage >= 0
+	return
+}
+
+// peepGenStructured: units (windows that are rewritten, windows that are matched but declined, plain
+// instructions, jumps); every jump targets the start of a unit or the end of the code — the layout the
+// compiler produces — so declined and rewritten windows lie in front of jump targets all the time.
+func peepGenStructured(r *hx.Rng, ix peepIdx) string {
+	n := 2 + r.Intn(8)
+	type unit struct {
+		toks []string
+		jump string // non-empty: a jump whose target is resolved below
+	}
+	units := make([]unit, 0, n)
+	for len(units) < n {
+		switch r.Intn(12) {
+		case 0, 1, 2: // declined constant window
+			units = append(units, unit{toks: []string{fmt.Sprintf("GC%d", ix.constInt), fmt.Sprintf("TC0.%d", ix.typeOther)}})
+		case 3: // rewritten constant window
+			units = append(units, unit{toks: []string{fmt.Sprintf("GC%d", ix.constInt), fmt.Sprintf("TC0.%d", ix.typeInt)}})
+		case 4: // declined path window (public path to a non-path / another path type)
+			t := []int{ix.typeOther, ix.typeStorage}[r.Intn(2)]
+			units = append(units, unit{toks: []string{"NP3.0", fmt.Sprintf("TC0.%d", t)}})
+		case 5: // rewritten path window
+			if r.Bool() {
+				units = append(units, unit{toks: []string{"NP3.0", fmt.Sprintf("TC0.%d", ix.typePublic)}})
+			} else {
+				units = append(units, unit{toks: []string{"NP1.0", fmt.Sprintf("TC0.%d", ix.typeStorage)}})
+			}
+		case 6:
+			units = append(units, unit{toks: []string{"N", fmt.Sprintf("TC0.%d", ix.typeOther)}})
+		case 7:
+			units = append(units, unit{toks: []string{"GL0", "GF0.0"}})
+		case 8:
+			units = append(units, unit{toks: []string{[]string{"T", "D", "A", "R", "SL1", "GL1"}[r.Intn(6)]}})
+		default:
+			units = append(units, unit{jump: []string{"J", "JF", "JT", "JN"}[r.Intn(4)]})
+		}
+	}
+	starts := make([]int, len(units)+1)
+	off := 0
+	for i, u := range units {
+		starts[i] = off
+		if u.jump != "" {
+			off++
+		} else {
+			off += len(u.toks)
+		}
+	}
+	starts[len(units)] = off
+	var toks []string
+	for _, u := range units {
+		if u.jump != "" {
+			toks = append(toks, fmt.Sprintf("%s%d", u.jump, starts[r.Intn(len(starts))]))
+		} else {
+			toks = append(toks, u.toks...)
+		}
+	}
+	return strings.Join(toks, " ")
+}
+
 // ---------------------------------------------------------------- Cadence program generator
 
 type peepGen struct {
@@ -413,7 +501,7 @@ func (g *peepGen) stmts(ind, depth, n int, inLoop bool) {
 
 func (g *peepGen) stmt(ind, depth int, inLoop bool) {
 	r := g.r
-	c := r.Intn(22)
+	c := r.Intn(26)
 	if depth <= 0 && c >= 14 {
 		c = r.Intn(14)
 	}
@@ -562,6 +650,75 @@ func (g *peepGen) stmt(ind, depth int, inLoop bool) {
 		v := g.v("a")
 		g.line(ind, "var "+v+": Int = "+g.cond(0)+" ? "+g.intAtom()+" : "+g.intAtom())
 		g.ints = append(g.ints, v)
+	case 22, 23: // a window the patterns match but decline, directly in front of jumps
+		g.declined(ind)
+		switch r.Intn(5) {
+		case 0:
+			v := g.v("a")
+			g.line(ind, "var "+v+": Int = "+g.cond(0)+" ? "+g.intAtom()+" : "+g.intAtom())
+			g.ints = append(g.ints, v)
+		case 1:
+			g.line(ind, "if "+g.cond(0)+" {")
+			g.stmts(ind+1, depth-1, 1, inLoop)
+			g.line(ind, "} else {")
+			g.declined(ind + 1)
+			g.line(ind, "}")
+		case 2:
+			i := g.v("i")
+			g.line(ind, "var "+i+" = 0")
+			g.line(ind, "while "+i+" < 2 {")
+			g.line(ind+1, i+" = "+i+" + 1")
+			g.declined(ind + 1)
+			g.line(ind, "}")
+		case 3:
+			g.line(ind, "let "+g.v("b")+": Bool = "+g.cond(1))
+		default:
+			v := g.v("a")
+			g.line(ind, "var "+v+": Int = s.o ?? "+g.intAtomSimple())
+			g.ints = append(g.ints, v)
+		}
+	case 24, 25: // function expression / inner function: separate entries of Program.Functions
+		// (the only code of a program the VM executes in optimised form)
+		savedInts, savedOpts := g.ints, g.opts
+		g.ints, g.opts = nil, nil
+		name := g.v("h")
+		if r.Bool() {
+			g.line(ind, "let "+name+" = fun (s: S, t: S): Int {")
+		} else {
+			g.line(ind, "fun "+name+"(s: S, t: S): Int {")
+		}
+		if r.Chance(70) {
+			g.declined(ind + 1)
+		}
+		g.stmts(ind+1, depth-1, 1+r.Intn(4), false)
+		g.line(ind+1, "return "+g.intAtomSimple())
+		g.line(ind, "}")
+		g.ints, g.opts = savedInts, savedOpts
+	}
+}
+
+// declined: one statement whose first two instructions form a window that a pattern matches by
+// opcodes but declines (constant of another kind than the target type; path literal to a supertype).
+func (g *peepGen) declined(ind int) {
+	r := g.r
+	switch r.Intn(4) {
+	case 0, 1:
+		ty := r.Pick([]string{"Int?", "AnyStruct", "Integer", "Number", "SignedInteger", "UInt8?", "Int??", "AnyStruct?"})
+		g.line(ind, "let "+g.v("c")+": "+ty+" = "+strconv.Itoa(r.Intn(100)))
+	case 2:
+		dom := r.Pick([]string{"public", "storage", "private"})
+		ty := map[string][]string{
+			"public":  {"Path", "CapabilityPath", "PublicPath?", "AnyStruct"},
+			"storage": {"Path", "StoragePath?", "AnyStruct"},
+			"private": {"Path", "CapabilityPath", "AnyStruct"},
+		}[dom]
+		g.line(ind, "let "+g.v("p")+": "+r.Pick(ty)+" = /"+dom+"/"+r.Pick([]string{"foo", "bar", "baz"}))
+	default:
+		if r.Bool() {
+			g.line(ind, "let "+g.v("s")+": "+r.Pick([]string{"String?", "AnyStruct"})+" = \"str\"")
+		} else {
+			g.line(ind, "let "+g.v("f")+": "+r.Pick([]string{"UFix64?", "AnyStruct", "FixedPoint"})+" = 1.5")
+		}
 	}
 }
 
@@ -615,6 +772,28 @@ func genPeep(c *hx.Ctx) {
 			peepEmitSynth(c, tbl, "fixed"+strconv.Itoa(i), f)
 		}
 	}
+	var ix peepIdx
+	structured := false
+	if tbl != nil {
+		ix, structured = peepFindIdx(tbl)
+	}
+	if structured {
+		gc, dec, rew := fmt.Sprintf("GC%d", ix.constInt), fmt.Sprintf("TC0.%d", ix.typeOther), fmt.Sprintf("TC0.%d", ix.typeInt)
+		// windows that are matched but declined (the code is not shortened there) in front of jump targets
+		fixed := []string{
+			gc + " " + dec + " T JF6 " + gc + " J7 " + gc + " R",      // `let x: Int? = 1; c ? a : b`
+			gc + " " + dec + " T JF7 GL0 D J2 R",                      // loop behind a declined window
+			"JF4 " + gc + " " + dec + " R N R",                        // jump across a declined window
+			"NP3.0 " + dec + " T JF5 N R",                             // declined path window
+			gc + " " + rew + " " + gc + " " + dec + " T JF8 N J9 N R", // rewritten, then declined
+			gc + " " + dec + " " + gc + " " + rew + " T JF8 N J9 N R", // declined, then rewritten
+			gc + " " + dec + " " + gc + " " + dec + " " + gc + " " + dec + " J6 J4 J2 J7", // only declined windows
+			"J2 R " + gc + " " + dec + " J1",                          // window starts at a jump target
+		}
+		for i, f := range fixed {
+			peepEmitSynth(c, tbl, "declined"+strconv.Itoa(i), f)
+		}
+	}
 	nSrc := c.N / 8
 	if nSrc < 1 {
 		nSrc = 1
@@ -639,7 +818,11 @@ func genPeep(c *hx.Ctx) {
 	}
 	if tbl != nil {
 		for k := 0; emitted < c.N; k++ {
-			peepEmitSynth(c, tbl, "r"+strconv.Itoa(k), peepGenSynth(r, len(tbl.prog.Constants), len(tbl.prog.Types)))
+			if structured && k%3 == 0 {
+				peepEmitSynth(c, tbl, "u"+strconv.Itoa(k), peepGenStructured(r, ix))
+			} else {
+				peepEmitSynth(c, tbl, "r"+strconv.Itoa(k), peepGenSynth(r, len(tbl.prog.Constants), len(tbl.prog.Types)))
+			}
 			emitted++
 		}
 	}
